@@ -105,7 +105,59 @@ def gen_exec_schema(rng, with_mutation=False, with_subscription=False, n_objects
         f = [x for x in types[tn]["fields"] if x["name"] == fn][0]
         if named_of(f["type"]) in interfaces + unions and rng.random() < 0.3:
             s["field_type_resolvers"].add((tn, fn))
+    # the same field name returning the same abstract type on two parent types, resolved by DIFFERENT kinds of
+    # type resolver (field-level on one, the type's own / the default one on the other)
+    if (interfaces + unions) and len(objects) >= 2 and rng.random() < 0.6:
+        a = rng.choice(interfaces + unions)
+        parents = rng.sample(objects, 2) if rng.random() < 0.7 else [rng.choice(objects), "Query"]
+        for k, pn in enumerate(parents):
+            if any(f["name"] == "sh" for f in types[pn]["fields"]):
+                continue
+            types[pn]["fields"].append({"name": "sh", "type": gen.wrap_random(rng, N(a), maxdepth=2), "args": []})
+            s["resolvers"].add((pn, "sh"))
+            if k == 0 or rng.random() < 0.3:
+                s["field_type_resolvers"].add((pn, "sh"))
     return s
+
+
+def add_error_path_types(s):
+    """Types whose misuse exercises the engine's suggestion machinery ("did you mean ..."): an input object and an
+    enum with several similar names, reachable from Query.qfilt.  Used by the history / concurrency checks."""
+    t = s["types"]
+    if "Filt" in t or "Query" not in t:
+        return s
+    t["Colr"] = {"kind": "ENUM", "values": ["GREEN", "GREET", "GREENS", "GREY", "RED"]}
+    t["Filt"] = {"kind": "INPUT", "fields": [
+        {"name": "hasFriend", "type": N("Boolean"), "default": None},
+        {"name": "hasFriends", "type": N("Boolean"), "default": None},
+        {"name": "hasFriendly", "type": N("Boolean"), "default": None},
+        {"name": "hasChildren", "type": N("Boolean"), "default": None},
+        {"name": "colr", "type": N("Colr"), "default": None}]}
+    t["Query"]["fields"].append({"name": "qfilt", "type": N("Int"), "args": [
+        {"name": "filt", "type": N("Filt"), "default": None}, {"name": "colr", "type": N("Colr"), "default": None}]})
+    t["Query"]["fields"].append({"name": "qfilter", "type": N("Int"), "args": []})
+    t["Query"]["fields"].append({"name": "qfilth", "type": N("Int"), "args": []})
+    s["resolvers"] |= {("Query", "qfilt"), ("Query", "qfilter"), ("Query", "qfilth")}
+    return s
+
+
+ERROR_PATH_REQUESTS = [
+    ("query ($f: Filt) { qfilt(filt: $f) }", {"f": {"hasFriendz": True}}),          # unknown input key, >= 3 close names
+    ("query ($f: Filt) { qfilt(filt: $f) }", {"f": {"hasFriendz": True, "hasChild": False}}),
+    ("query ($c: Colr) { qfilt(colr: $c) }", {"c": "GREE"}),                          # unknown enum value
+    ("query ($f: Filt) { qfilt(filt: $f) }", {"f": {"colr": "GREE"}}),
+    ("{ qfilt(filt: {hasFriendz: true}) }", {}),                                    # the same mistakes as literals
+    ("{ qfilt(colr: GREE) }", {}),
+    ("{ qfilte }", {}),                                                             # unknown field / argument
+    ("{ qfilt(fil: null) }", {}),
+    ("query ($f: Filtt) { qfilt(filt: $f) }", {}),                                  # unknown type
+    ("query ($f: Filt) { qfilt(filt: $f) }", {"f": {"hasFriend": True}}),           # and a valid use
+]
+
+
+def error_path_cases(rng=None):
+    return [{"query": q, "variables": dict(v), "opname": None, "kind": "query", "oracle_seed": 3, "root": None,
+             "adversarial": 0.0, "fail": 0.0, "tag": "error-path-%d" % i} for i, (q, v) in enumerate(ERROR_PATH_REQUESTS)]
 
 
 def possible_types(s, name):
@@ -196,6 +248,9 @@ class DocGen:
             r = rng.random()
             if r < 0.55 and flds:
                 f = rng.choice(flds)
+                sh = [x for x in flds if x["name"] == "sh"]
+                if sh and rng.random() < 0.3:
+                    f = sh[0]
                 chosen_fields.append(f)
                 sels.append(self.field(f, depth))
             elif r < 0.65:
@@ -382,6 +437,11 @@ class Oracle:
         attrs = OrderedDict()
         attrs["_typename"] = tname
         attrs["__tr"] = tname
+        if rng.random() < 0.1:          # the custom type resolvers and the default one disagree about this value
+            others = [o for o, od in self.s["types"].items() if od["kind"] == "OBJECT" and o != tname
+                      and o not in ("Query", "Mutation", "Subscription")]
+            if others:
+                attrs["__tr"] = rng.choice(others)
         attrs["id"] = rng.randrange(1000)
         for f in fields_of(self.s, tname):
             if (tname, f["name"]) in self.s["resolvers"]:
@@ -450,10 +510,22 @@ class Oracle:
                 return ("ret", 7)
             if kind == "bad_typename":
                 return ("ret", {"_typename": "Nope", "__tr": "Nope"})
-            if kind == "exc_item":
-                # the value the resolver would return, with an exception object as one list element
+            if kind in ("exc_item", "bad_type_item", "null_item", "garbage_item"):
+                # the value the resolver would return, with an offending object as one list element
                 v = Oracle(self.s, self.seed, 0.0, 0.0).value(rng, ftype, 0)
-                exc = ValueError(msg)
+                if kind == "exc_item":
+                    exc = ValueError(msg)
+                elif kind == "bad_type_item":
+                    foreign = [o for o, od in self.s["types"].items() if od["kind"] == "OBJECT"
+                               and o not in ("Query", "Mutation", "Subscription")
+                               and o not in possible_types(self.s, named_of(ftype))] \
+                        if named_of(ftype) in self.s["types"] else []
+                    tn = rng.choice(foreign) if foreign and rng.random() < 0.6 else "Nope"
+                    exc = {"_typename": tn, "__tr": tn}
+                elif kind == "null_item":
+                    exc = None
+                else:
+                    exc = Opaque("object")
 
                 def plant(x, t):
                     while t[0] == "nonnull":
